@@ -60,7 +60,7 @@ pub fn make_history(r: &mut Sm, idx: usize) -> History {
     } else {
         None
     };
-    History { problems: vec![p1, p2], params, prm_samples: 5 + r.below(80) as u64, ops, uniform_fail_at: None, starts_override: None, script }
+    History { problems: vec![p1, p2], params, prm_samples: 5 + r.below(80) as u64, ops, uniform_fail_at: None, starts_override: None, script, prm_build_override: None }
 }
 
 fn first_difference(a: &[CallRec], b: &[CallRec]) -> Option<(usize, String)> {
